@@ -208,10 +208,10 @@ func (g *Generator) makeSubMap(f1, f2 *Field, typ1, typ2 types.Type, isSlice boo
 		typ2 = p.Elem()
 	}
 
-	if n1, ok := typ1.(*types.Named); ok && n1.Obj().Pkg() != nil {
+	if n1, ok := typ1.(*types.Named); ok && n1.Obj().Pkg() != nil && isStructType(n1) {
 		pkgpath1 := n1.Obj().Pkg().Path()
 
-		if n2, ok := typ2.(*types.Named); ok && n2.Obj().Pkg() != nil {
+		if n2, ok := typ2.(*types.Named); ok && n2.Obj().Pkg() != nil && isStructType(n2) {
 			pkgpath2 := n2.Obj().Pkg().Path()
 
 			if pkgpath1 == g.Pkg().PkgPath && pkgpath2 == g.destPkg.PkgPath {
@@ -245,6 +245,12 @@ func (g *Generator) makeSubMap(f1, f2 *Field, typ1, typ2 types.Type, isSlice boo
 			}
 		}
 	}
+}
+
+// isStructType reports whether t can have generated ToX/FromX methods: only struct types are mapped
+func isStructType(t types.Type) bool {
+	_, ok := t.Underlying().(*types.Struct)
+	return ok
 }
 
 func (g *Generator) makeSubListMap(f1, f2 *Field) {
